@@ -334,6 +334,7 @@ func (fv *FV) loadCell(e *Env, comp string, t types.Type, sortHint string, idx .
 }
 
 func (fv *FV) storeCell(e *Env, comp string, t types.Type, sortHint string, v Value, idx ...Term) {
+	fv.escape(e, v) // a slice stored into the heap is reachable by others
 	k, s := sortOf(t)
 	if t == nil {
 		k, s = kScalar, sortHint
